@@ -100,6 +100,8 @@ pub fn blocks(thorough: bool) -> Vec<Block> {
         b.push(Block::new(Universe::new("U_adv(A_gcm)", A_GCM, 3, 1, false), pres(&[0, R]), "7 subsets x {{}, r}"));
         b.push(Block::new(u_kind_pairs(2, 2, false), pres(&[0]), "7 subsets"));
         b.push(Block::new(u_runs(), pres(&[0, I]), "7 subsets x {{}, i}"));
+        b.push(Block::new(u_kind_triples(), pres(&[0]), "7 subsets"));
+        b.push(Block::new(u_many(30), pres(&[0]), "7 subsets"));
     } else {
         let b2: Vec<u32> = lattice_le(0, ALL_BITS & !(X | G | E | U | C), 2).iter().map(|c| c.bits).collect();
         b.push(Block::new(Universe::new("U_ab3{a,b}", &["a", "b"], 3, 0, true), pres(&bases8), "7 subsets x 8 bases"));
@@ -117,6 +119,8 @@ pub fn blocks(thorough: bool) -> Vec<Block> {
         b.push(Block::new(u_kind_pairs(2, 2, true), pres(&[R, I, NA | NE]), "7 subsets x {r, i, na+ne}"));
         b.push(Block::new(u_kind_pairs(3, 1, false), pres(&bases8), "7 subsets x 8 bases"));
         b.push(Block::new(u_runs(), pres(&bases8), "7 subsets x 8 bases"));
+        b.push(Block::new(u_kind_triples(), pres(&bases8), "7 subsets x 8 bases"));
+        b.push(Block::new(u_many(120), pres(&[0, R, NA | NE]), "7 subsets x {{}, r, na+ne}"));
     }
     b
 }
